@@ -1,4 +1,4 @@
-import Hannibal.Monitor.Basic
+import Hannibal.Monitor.Handles
 /-
   C13 — stream-attached actors handle every item in order and end with the stream.
 -/
@@ -14,13 +14,16 @@ structure C13St where
   graceful : Bool
   finishedSeen : Nat
   stoppedSeen : Nat
+  hold : HoldSt
   deriving Repr, DecidableEq
 
 def monC13 (c : MonCtx) : Mon C13St where
   init := { ready := [], ended := false, stopIssued := false, cancelled := false, failure := false,
-            terminated := false, graceful := false, finishedSeen := 0, stoppedSeen := 0 }
+            terminated := false, graceful := false, finishedSeen := 0, stoppedSeen := 0,
+            hold := HoldSt.init c.h0 c.k0 }
   step st l :=
     if !c.cfg.stream then some st else
+    let st := { st with hold := st.hold.step l }
     match l with
     | .streamReady k => some { st with ready := st.ready ++ [k] }
     | .streamEnd => some { st with ended := true }
@@ -40,7 +43,7 @@ def monC13 (c : MonCtx) : Mon C13St where
     | .cancel => some { st with cancelled := true, failure := true, terminated := true }
     | .quiescent _ =>
       if st.failure then some st
-      else if st.ended || st.stopIssued then
+      else if st.ended || st.stopIssued || !st.hold.strongHeld then
         (if st.terminated && st.graceful then some st else none)   -- ends with the stream / on stop
       else if !st.terminated && !st.ready.isEmpty then none         -- every item yielded so far was handled
       else some st
